@@ -168,7 +168,7 @@ func (m *model) describe() string {
 		return fmt.Sprintf("none, current group %d", m.cur)
 	}
 	return fmt.Sprintf("%s incoming=%d current=%d exec=%s forced=%v signing=%d doomed=%q", m.tr.status, m.tr.incoming, m.tr.current,
-		m.tr.execTime.Format(time.RFC3339), m.tr.forced, m.tr.signingID, m.tr.doomed)
+		m.tr.execTime.Format(time.RFC3339Nano), m.tr.forced, m.tr.signingID, m.tr.doomed)
 }
 
 // dropDoomed handles a fact after which the transition can never become ready: the module may end it right
@@ -287,7 +287,7 @@ func (m *model) dkgCompleted(gid uint64, T time.Time, h int64, handover, handove
 	if T.After(t.execTime) {
 		// finished after the deadline: too late, the transition is dropped at the end of this block
 		if handover != 0 {
-			m.fail("C18/unexpected-handover-signing", "key generation of group %d completed at %s, after ExecTime %s, but hand-over signing %d was created", gid, T.Format(time.RFC3339), t.execTime.Format(time.RFC3339), handover)
+			m.fail("C18/unexpected-handover-signing", "key generation of group %d completed at %s, after ExecTime %s, but hand-over signing %d was created", gid, T.Format(time.RFC3339Nano), t.execTime.Format(time.RFC3339Nano), handover)
 		}
 		m.check("key generation completed after ExecTime", got, nil)
 		return "dkg-done-after-exec"
@@ -378,7 +378,7 @@ func (m *model) endBlock(T time.Time, h int64, got []outEv) string {
 		for _, g := range got {
 			if g.typ == "group_transition_success" {
 				if t != nil {
-					m.fail("C18/executed-early", "transition executed at height %d, block time %s is before ExecTime %s (%s)", h, T.Format(time.RFC3339), t.execTime.Format(time.RFC3339), m.describe())
+					m.fail("C18/executed-early", "transition executed at height %d, block time %s is before ExecTime %s (%s)", h, T.Format(time.RFC3339Nano), t.execTime.Format(time.RFC3339Nano), m.describe())
 				} else {
 					m.fail("C18/executed-not-ready", "a transition was executed at height %d although none is in progress", h)
 				}
@@ -386,7 +386,7 @@ func (m *model) endBlock(T time.Time, h int64, got []outEv) string {
 			}
 		}
 		if t != nil && sameOut(got, []outEv{{typ: "group_transition_failed", incoming: t.incoming}}) {
-			m.fail("C18/dropped-before-exec-time", "transition dropped at height %d, block time %s is before ExecTime %s and nothing made it hopeless (%s)", h, T.Format(time.RFC3339), t.execTime.Format(time.RFC3339), m.describe())
+			m.fail("C18/dropped-before-exec-time", "transition dropped at height %d, block time %s is before ExecTime %s and nothing made it hopeless (%s)", h, T.Format(time.RFC3339Nano), t.execTime.Format(time.RFC3339Nano), m.describe())
 			return ""
 		}
 		m.check("end of block (nothing due)", got, nil)
